@@ -93,10 +93,29 @@ class C17(SmallSuite):
                         o["as"] = rng.choice(["int_list", "int_array"])
                 ops.append(o)
             elif u < 0.87:
-                lo, hi = objectives.gen_box(rng, N)
+                v = rng.random()
+                if v < 0.2:
+                    # a fine adjustment of the current box (relative 1e-6 .. 1e-9 of its size)
+                    d = rng.choice([1e-6, 1e-7, 1e-9])
+                    lo = [l + (h - l) * d * rng.choice([-1, 1, 2]) for l, h in zip(*box)]
+                    hi = [h + (h - l) * d * rng.choice([-1, 1, 3]) for l, h in zip(*box)]
+                elif v < 0.35:
+                    # a very small box (nanometre scale), possibly next to another one
+                    base = [float("%.3g" % rng.uniform(-1, 1)) for _ in range(N)] if rng.random() < 0.5 else [0.0] * N
+                    side = rng.choice([1e-9, 4e-9, 1e-7])
+                    lo, hi = base, [b + side * rng.choice([1, 2, 4]) for b in base]
+                else:
+                    lo, hi = objectives.gen_box(rng, N)
                 box = (lo, hi)
                 ops.append({"op": "setbounds", "lower": lo, "upper": hi})
                 n_bounds += 1
+            elif u < 0.90:
+                # a malformed inverse query (a point of the wrong length): whatever it does itself - raise or answer something -
+                # the queries that follow must not be affected by it
+                n_bad = rng.choice([0, max(0, N - 1), N + 1, N + 2])
+                if n_bad != N:
+                    ops.append({"op": "bad_inverse", "kind": rng.choice(["inverse", "preimages"]),
+                                "y": [box[0][0] + (box[1][0] - box[0][0]) * rng.random() for _ in range(n_bad)]})
             elif u < 0.94 and n_ret:
                 ops.append({"op": "scribble", "ret": rng.randrange(n_ret), "value": _r(rng, -1e3, 1e3)})
             else:
@@ -178,6 +197,15 @@ class C17(SmallSuite):
                     events.append("setbounds")
                     if q_before_bounds:
                         bounds_between = True
+                elif k == "bad_inverse":
+                    rep.probes["malformed_queries"] += 1
+                    try:
+                        (ev.GetInverseImage if op["kind"] == "inverse" else ev.GetPreimages)(np.array(op["y"], dtype=np.double))
+                        events.append("bad_inverse answered")
+                    except core.HarnessError:
+                        raise
+                    except Exception as e:
+                        events.append("bad_inverse raised %s" % type(e).__name__)
                 elif k == "scribble":
                     arr = returned[op["ret"]][0]
                     arr[...] = op["value"]
